@@ -15,6 +15,19 @@ pub uninterp spec fn until(deadline: Instant) -> Duration;
 /// tokio-util's DelayQueue::insert panics for timeouts above 2^36 - 1 ms.
 pub const MAX_TIMER_MS: u64 = 68719476735;
 
+/// Model of `crate::util::MAX_TIMER_DELAY`: that the real constant is exactly 31_536_000_000 ms
+/// (and hence within the DelayQueue range) is proved by Kani harness k3_max_timer_delay_value.
+pub const MAX_TIMER_DELAY: Duration = Duration { ms: 31_536_000_000 };
+pub open spec fn max_timer_delay() -> Duration { Duration { ms: 31_536_000_000 } }
+pub open spec fn dmin(a: Duration, b: Duration) -> Duration { if a.ms <= b.ms { a } else { b } }
+impl Duration {
+    /// Ord::min on Duration
+    #[verifier::external_body]
+    pub fn min(self, other: Duration) -> (r: Duration)
+        ensures r == dmin(self, other)
+    { unimplemented!() }
+}
+
 impl Instant {
     #[verifier::external_body]
     pub fn time_until(&self) -> (r: Duration)
